@@ -498,6 +498,27 @@ theorem C08_perm_treeinfo_partial (t t' : TI.TreeInfo) (mv : Option Str) (d d' :
     (hk : IniText.DistinctKeys d) (hd : Ini.NoDefault d) : IniText.render d = IniText.render d' :=
   C08_ini_canonical d d' he hk hd
 
+/-! ## treeinfo: repeated dumps -/
+
+/-- the text `TreeInfo.dump(f, main_variant)` writes, in the model: a PURE function of the content and of the argument
+(`TI.serialize` takes the object and `main_variant`, returns a document, and has no other input or output) -/
+def TI.dumpText (t : TI.TreeInfo) (mv : Option Str) : Except Err Str := (TI.serialize t mv).map IniText.render
+
+/-- a history of `dump` calls on ONE object -/
+def TI.dumpHistory (t : TI.TreeInfo) (calls : List (Option Str)) : List (Except Err Str) := calls.map (TI.dumpText t)
+
+/-- **C08 repeat (treeinfo).**  Whatever was dumped before (with whichever `main_variant` arguments) and whatever is dumped
+afterwards, a `dump(main_variant = mv)` writes what a fresh object of the same content writes for the same call: the output is
+a function of (content, main_variant) only.
+In the model this is immediate - `TI.serialize` has no state to carry from one call to the next (the code creates a
+throw-away `General(self)` per dump and `Header.serialize` of treeinfo does not set `header.version`).  That the REAL object
+has no such hidden state either is not a statement about the model: it is covered on every run by the `c08_seq` probe of the
+harness (one object, `dump(main_variant=<each top-level key>)` and plain dumps in every order, each output compared with a
+fresh object's and with `TI.dumpText`). -/
+theorem C08_repeat_treeinfo (t : TI.TreeInfo) (before after : List (Option Str)) (mv : Option Str) :
+    (TI.dumpHistory t (before ++ mv :: after))[before.length]? = some (TI.dumpText t mv) := by
+  simp [TI.dumpHistory]
+
 /-! ## non-vacuity (composeinfo) -/
 namespace CI
 def wV (id : Str) (arches : List Str) : Variant :=
